@@ -174,7 +174,8 @@ func runCase(evs []ev) ([][]answer, error) {
 		}()
 	}
 	collect := func() []answer {
-		time.Sleep(25 * time.Millisecond)
+		// every request goroutine has either answered or parked, the watch loop waits for its stream
+		emit.Quiesce(20 * time.Second)
 		mu.Lock()
 		defer mu.Unlock()
 		out := done
@@ -202,7 +203,7 @@ func runCase(evs []ev) ([][]answer, error) {
 			cl.mu.Unlock()
 			select {
 			case cl.cur() <- mkResult(e.r):
-			case <-time.After(2 * time.Second):
+			case <-time.After(30 * time.Second):
 				reqCancel()
 				return nil, fmt.Errorf("watch item not consumed")
 			}
@@ -216,11 +217,11 @@ func runCase(evs []ev) ([][]answer, error) {
 				req := httptest.NewRequest(http.MethodGet, fmt.Sprintf("/%s/public/%d", hash, e.r), nil).WithContext(actx)
 				h.GetHTTPHandler().ServeHTTP(rec, req)
 			}()
-			time.Sleep(15 * time.Millisecond)
+			emit.Quiesce(20 * time.Second) // the request is parked
 			acancel()
 			select {
 			case <-adone:
-			case <-time.After(3 * time.Second):
+			case <-time.After(30 * time.Second):
 				reqCancel()
 				return nil, fmt.Errorf("abandoned request did not return")
 			}
